@@ -16,11 +16,13 @@ pub struct EnumCase {
     /// ranges given as notation and built by espada's parser (the oracle then reads the
     /// parsed range back, so a notation defect cannot masquerade as an enumeration defect)
     pub notation: Option<Vec<String>>,
+    /// drain at most this many showdowns (cases whose complete enumeration is out of reach)
+    pub limit: Option<u64>,
 }
 
 impl EnumCase {
     pub fn collect(label: &str, flop: [u8; 3], ranges: Vec<Combos>) -> EnumCase {
-        EnumCase { label: label.to_string(), flop, ranges, notation: None }
+        EnumCase { label: label.to_string(), flop, ranges, notation: None, limit: None }
     }
 
     pub fn parsed(label: &str, flop: [u8; 3], notation: &[&str]) -> EnumCase {
@@ -29,6 +31,7 @@ impl EnumCase {
             flop,
             ranges: Vec::new(),
             notation: Some(notation.iter().map(|s| s.to_string()).collect()),
+            limit: None,
         }
     }
 
@@ -60,7 +63,22 @@ impl EnumCase {
             Some(n) => j.put("notation", Json::strs(n.clone())),
             None => j.put("ranges", Json::strs(self.ranges.iter().map(|r| combos_text(r)))),
         }
+        if let Some(l) = self.limit {
+            j.put("limit", Json::Int(l as i128));
+        }
         j
+    }
+
+    pub fn players(&self) -> usize {
+        match &self.notation {
+            Some(n) => n.len(),
+            None => self.ranges.len(),
+        }
+    }
+
+    pub fn with_limit(mut self, limit: u64) -> EnumCase {
+        self.limit = Some(limit);
+        self
     }
 
     pub fn from_json(j: &Json) -> Option<EnumCase> {
@@ -76,7 +94,8 @@ impl EnumCase {
             Some(a) => a.iter().map(|s| s.as_str().and_then(parse_combos_text)).collect::<Option<Vec<_>>>()?,
             None => Vec::new(),
         };
-        Some(EnumCase { label, flop: [flop_v[0], flop_v[1], flop_v[2]], ranges, notation })
+        let limit = j.get("limit").and_then(|l| l.as_i128()).map(|l| l as u64);
+        Some(EnumCase { label, flop: [flop_v[0], flop_v[1], flop_v[2]], ranges, notation, limit })
     }
 
     /// Short description for samples (sizes instead of full combo lists).
